@@ -2,8 +2,9 @@
    Commands (one per line):
    OPS n k (op args)*        same syntax and output format as harness/cx_owner OPS; " | HANG" if the model runs out of
                              fuel (the C++ loop would not terminate)
-   MTREE N n (owner has_pts is_open bounds_empty nsplits splits...)*n I <digits> B <digits>
-                             (the state part of harness/cx_owner TREE's answer) -> "T m (idx parent)*m" in preorder,
+   MTREE v N n (owner has_pts is_open bounds_empty nsplits splits...)*n I <digits> B <digits>
+                             (v = shape of RecursiveCheckOwners: bit 0 own_first, bit 1 mark_owner, see model/Owner.v; then
+                             the state part of harness/cx_owner TREE's answer) -> "T m (idx parent)*m" in preorder,
                              or FUEL / NULLDEREF
    CHECK rev cnt (depth isHole nChildren <path>)*cnt <closed paths> <open paths> <tree-run open paths>
                              -> k (code idx)*      tree_check violations
@@ -59,6 +60,8 @@ let handle t =
       with Exit -> Buffer.add_string buf " | HANG");
       Buffer.contents buf
   | "MTREE" ->
+      let v = next_int t in
+      let own_first = (v land 1) <> 0 and mark_owner = (v land 2) <> 0 in
       let _ = next t in                       (* N *)
       let n = next_int t in
       let opens = Array.make (max n 1) false and bemp = Array.make (max n 1) false in
@@ -72,7 +75,7 @@ let handle t =
         if a < n && b < n && String.length s = n * n then s.[a * n + b] = '1' else false in
       let arr a i = let k = int_of_nat i in if k < n then a.(k) else false in
       let fuel = nat_of_int (4 * (n + 2) * (n + 2)) in
-      (match build_tree (tbl istr) (tbl bstr) (arr bemp) (arr opens) fuel m with
+      (match build_tree (tbl istr) (tbl bstr) (arr bemp) (arr opens) own_first mark_owner fuel m with
        | None -> "FUEL"
        | Some None -> "NULLDEREF"
        | Some (Some (_, tr)) ->
